@@ -479,7 +479,7 @@ def ugrid(rng, *, w=None, h=None, start_index=None, fill=None, transposed=None, 
 
     def table(rows, width, dims, role, allow_transpose=True):
         """encode a ragged integer table"""
-        need_fill = any(len(r) < width for r in rows)
+        need_fill = any(len(r) < width or None in r for r in rows)
         attrs = {'cf_role': role, 'start_index': numpy.int32(start_index)}
         if rng.random() < 0.3 and start_index == 0:
             attrs.pop('start_index')
@@ -488,12 +488,14 @@ def ugrid(rng, *, w=None, h=None, start_index=None, fill=None, transposed=None, 
             arr = numpy.full((len(rows), width), numpy.nan)
             for r, row in enumerate(rows):
                 for c, v in enumerate(row):
-                    arr[r, c] = v + start_index
+                    if v is not None:
+                        arr[r, c] = v + start_index
         else:
             arr = numpy.full((len(rows), width), FILL, dtype='i4')
             for r, row in enumerate(rows):
                 for c, v in enumerate(row):
-                    arr[r, c] = v + start_index
+                    if v is not None:
+                        arr[r, c] = v + start_index
             if mode == 'attr':
                 attrs['_FillValue'] = numpy.int32(FILL)
         d = list(dims)
@@ -517,7 +519,9 @@ def ugrid(rng, *, w=None, h=None, start_index=None, fill=None, transposed=None, 
         variables['Mesh2_edge_nodes'] = t
         mesh_attrs['edge_node_connectivity'] = 'Mesh2_edge_nodes'
     if 'edge_face' in supplied:
-        t, _ = table(edge_face, 2, (edim, two), 'edge_face_connectivity')
+        # the left/right-of-the-edge convention: a boundary edge may hold its missing face in the FIRST column
+        ef_rows = [[None, r[0]] if len(r) == 1 and rng.random() < 0.4 else r for r in edge_face]
+        t, _ = table(ef_rows, 2, (edim, two), 'edge_face_connectivity')
         variables['Mesh2_edge_faces'] = t
         mesh_attrs['edge_face_connectivity'] = 'Mesh2_edge_faces'
     has_edge_dim = bool({'edge_node', 'edge_face'} & supplied)
